@@ -587,6 +587,7 @@ pub fn record(out: &mut dyn std::io::Write, seed: u64, n_events: usize) {
         writeln!(out, "{}", probe_pair(&sp, &inp)).unwrap();
     }
     while seq < n_events {
+        crate::ctx::beat(&format!("{{\"record\": \"c16\", \"seed\": {seed}, \"event\": {seq}}}"));
         seq += 1;
         let space = names[seq % names.len()];
         if seq % 1500 == 12 || (seq <= 200 && seq % 25 == 12) {
